@@ -136,6 +136,15 @@ type caseT struct {
 	Rules    []ruleT `json:"rules"`
 	Ops      []opT   `json:"ops"`
 	Reload   string  `json:"reloadPrologue,omitempty"` // rule list in force (without traffic) before the case's rules
+	// reloads in the middle of the traffic that change nothing; operations At..At+N-1 run inside the generator
+	Reloads  []reloadT `json:"reloads,omitempty"`
+	Listener string    `json:"listener,omitempty"` // "" passive | panics | reenters (single-rule cases)
+}
+
+type reloadT struct {
+	At              int  `json:"at"`
+	N               int  `json:"n"`
+	GeneratorPanics bool `json:"generatorPanics,omitempty"`
 }
 
 type obsT struct {
@@ -216,7 +225,26 @@ func geometry(r ruleT) (n, bl uint64) {
 var (
 	laterBlock bool
 	lsnLog     []evT
+	inEnter    int    // > 0 while a request of the harness is inside sentinel.Entry
+	onOpenHook func() // what the listener does after recording a transition to Open made by a completion
+	genHook    func() // what the generator of the user strategy does (operations issued inside a reload)
+	genPanics  bool
 )
+
+// userStrategy: a circuit-breaking strategy with a user-registered generator
+// (SetCircuitBreakerGenerator) that never produces a breaker: its rules are ignored.
+const userStrategy = circuitbreaker.Strategy(77)
+
+func userGenerator(r *circuitbreaker.Rule, reuseStat interface{}) (circuitbreaker.CircuitBreaker, error) {
+	if h := genHook; h != nil {
+		genHook = nil
+		h()
+	}
+	if genPanics {
+		panic("generator failure")
+	}
+	return nil, errors.New("declined")
+}
 
 // laterSlot is a rule-check slot ordered after the circuit-breaker slot; it rejects the request
 // iff laterBlock is set (only reached when every earlier slot let the request pass).
@@ -276,6 +304,9 @@ func (listener) OnTransformToOpen(prev circuitbreaker.State, rule circuitbreaker
 		s = snapT{Kind: "other", Repr: fmt.Sprintf("%T", snapshot)}
 	}
 	lsnLog = append(lsnLog, evT{Res: rule.Resource, Idx: ruleIdx(rule.Id), From: stateOf(prev), To: stOpen, Snap: s})
+	if h := onOpenHook; h != nil && inEnter == 0 {
+		h()
+	}
 }
 
 func (listener) OnTransformToHalfOpen(prev circuitbreaker.State, rule circuitbreaker.Rule) {
@@ -611,7 +642,19 @@ func (h *harness) genRun(id int) (c caseT, obs []obsT, log []evT, marks []int) {
 	if id%3 != 0 {
 		prologue = (id / 3) % 8
 	}
+	single := false
+	if prologue < 6 {
+		switch id % 10 {
+		case 1:
+			c.Listener, single = "panics", true
+		case 2:
+			c.Listener, single = "reenters", true
+		}
+	}
 	c.Rules = genRules(r, c.Directed, prologue >= 6)
+	if single {
+		c.Rules = c.Rules[:1]
+	}
 	c.ErrPct = int(r.PickI(15, 50, 85))
 	if c.Directed {
 		c.ErrPct = 85
@@ -683,77 +726,31 @@ func (h *harness) genRun(id int) (c caseT, obs []obsT, log []evT, marks []int) {
 
 	ref := newRef(c.Rules) // tracks the phases for the phase-directed stream only
 	nops := 20 + r.Intn(51)
-	entries := make([]*base.SentinelEntry, nops)
-	starts := make([]uint64, nops)
+	total := nops + 8 // room for the requests a re-entering listener issues
+	entries := make([]*base.SentinelEntry, total)
+	starts := make([]uint64, total)
 	var live []int
 	now := c.T0
 	forced := int64(-1)
-	mark := func() {
+	count := func() int {
 		n := 0
 		for _, e := range lsnLog {
 			if e.Res == res {
 				n++
 			}
 		}
-		marks = append(marks, n)
+		return n
 	}
-	for i := 0; i < nops; i++ {
-		var dt uint64
-		jumped := forced >= 0
-		if jumped {
-			dt, forced = uint64(forced), -1
-		} else {
-			dt = genDt(r, c.Rules)
-		}
-		var doComplete bool
-		if jumped {
-			doComplete = len(live) > 0 && r.Chance(25, 100)
-		} else {
-			doComplete = len(live) > 0 && r.Chance(45, 100)
-		}
-		if doComplete {
-			var k int
-			switch x := r.Intn(10); {
-			case x < 8:
-				k = live[r.Intn(len(live))]
-			case x == 8:
-				k = live[0] // the oldest live entry: a straggler
-			default:
-				k = r.Intn(i) // may be a non-entry, a blocked or an already exited one
-			}
-			pe := c.ErrPct
-			if c.Directed && ref.any(stHalfOpen) {
-				pe = 50
-			}
-			isErr := r.Chance(pe, 100)
-			c.Ops = append(c.Ops, opT{Kind: "complete", Dt: dt, K: k, Err: isErr})
-			h.clk.AddMs(dt)
-			now += dt
-			if e := entries[k]; e != nil {
-				if isErr {
-					sentinel.TraceError(e, errors.New("e"))
-				}
-				e.Exit()
-				entries[k] = nil
-				for j, v := range live {
-					if v == k {
-						live = append(live[:j:j], live[j+1:]...)
-						break
-					}
-				}
-				ref.complete(now, starts[k], isErr)
-			}
-			obs = append(obs, obsT{Kind: "none", Idx: -1})
-			mark()
-			continue
-		}
-		lb := r.Chance(8, 100)
-		eo := genOpts(r)
+	// one request; returns its observed kind
+	doEnter := func(dt uint64, lb bool, eo *optsT) string {
+		i := len(c.Ops)
 		c.Ops = append(c.Ops, opT{Kind: "enter", Dt: dt, LaterBlock: lb, Opts: eo})
 		h.clk.AddMs(dt)
 		now += dt
 		laterBlock = lb
+		inEnter++
 		e, b := sentinel.Entry(res, append([]sentinel.EntryOption{sentinel.WithSlotChain(h.chain)}, eo.entryOptions()...)...)
+		inEnter--
 		laterBlock = false
 		ref.enter(now, lb)
 		var o obsT
@@ -774,8 +771,98 @@ func (h *harness) genRun(id int) (c caseT, obs []obsT, log []evT, marks []int) {
 			o = obsT{Kind: "blocklater", Idx: -1, Type: b.BlockType().String()}
 		}
 		obs = append(obs, o)
-		mark()
-		if c.Directed && o.Kind != "pass" && r.Chance(1, 2) {
+		marks = append(marks, count())
+		return o.Kind
+	}
+	completeSlot := -1 // index in marks of the completion being executed (for a re-entering listener)
+	doComplete := func(dt uint64, k int, isErr bool) {
+		c.Ops = append(c.Ops, opT{Kind: "complete", Dt: dt, K: k, Err: isErr})
+		h.clk.AddMs(dt)
+		now += dt
+		slot := len(marks)
+		obs = append(obs, obsT{Kind: "none", Idx: -1})
+		marks = append(marks, -1)
+		if e := entries[k]; e != nil {
+			if isErr {
+				sentinel.TraceError(e, errors.New("e"))
+			}
+			entries[k] = nil
+			for j, v := range live {
+				if v == k {
+					live = append(live[:j:j], live[j+1:]...)
+					break
+				}
+			}
+			ref.complete(now, starts[k], isErr)
+			outer := completeSlot
+			completeSlot = slot
+			e.Exit()
+			completeSlot = outer
+		}
+		if marks[slot] < 0 {
+			marks[slot] = count()
+		} else if n := count(); n > marks[len(marks)-1] {
+			marks[len(marks)-1] = n
+		}
+	}
+	// Listener behaviour of the case (single-rule cases only, where a request issued from inside the
+	// listener is the same as one issued right after the completion): passive, or - when the breaker
+	// is opened by a completion - the listener panics after recording the call (recovered in Exit), or
+	// it enters the resource itself.  The breaker must be Open with its full deadline either way.
+	onOpenHook = nil
+	switch c.Listener {
+	case "panics":
+		onOpenHook = func() { panic("listener failure") }
+	case "reenters":
+		nesting := false
+		onOpenHook = func() {
+			if nesting || completeSlot < 0 || len(c.Ops) >= total-1 {
+				return
+			}
+			nesting = true
+			marks[completeSlot] = count()
+			doEnter(0, false, nil)
+			nesting = false
+		}
+	}
+	// one generated operation of the stream
+	stepOnce := func() {
+		i := len(c.Ops)
+		var dt uint64
+		jumped := forced >= 0
+		if jumped {
+			dt, forced = uint64(forced), -1
+		} else {
+			dt = genDt(r, c.Rules)
+		}
+		var doC bool
+		if jumped {
+			doC = len(live) > 0 && r.Chance(25, 100)
+		} else {
+			doC = len(live) > 0 && r.Chance(45, 100)
+		}
+		if doC {
+			var k int
+			switch x := r.Intn(10); {
+			case x < 8:
+				k = live[r.Intn(len(live))]
+			case x == 8:
+				k = live[0] // the oldest live entry: a straggler
+			default:
+				k = r.Intn(i) // may be a non-entry, a blocked or an already exited one
+			}
+			pe := c.ErrPct
+			if c.Directed && ref.any(stHalfOpen) {
+				pe = 50
+			}
+			isErr := r.Chance(pe, 100)
+			doComplete(dt, k, isErr)
+			return
+		}
+		lb := r.Chance(8, 100)
+		eo := genOpts(r)
+		kind := doEnter(dt, lb, eo)
+		if c.Directed && kind != "pass" && r.Chance(1, 2) {
 			if d, ok := ref.earliestOpenDeadline(); ok {
 				var rem uint64
 				if d > now {
@@ -788,6 +875,38 @@ func (h *harness) genRun(id int) (c caseT, obs []obsT, log []evT, marks []int) {
 			}
 		}
 	}
+	nReloads := 0
+	for len(c.Ops) < nops {
+		// A reload in the middle of the traffic that changes nothing: the rules in force plus one rule of
+		// a user strategy whose generator declines (rule ignored) or panics (load fails).  The next 1-3
+		// operations are issued from INSIDE the generator, i.e. while the reload is under way; they and
+		// everything after must see every kept breaker exactly as without the reload.
+		if nReloads < 2 && len(c.Ops) > 0 && r.Chance(4, 100) {
+			nReloads++
+			inner := 1 + r.Intn(3)
+			pan := r.Chance(1, 3)
+			c.Reloads = append(c.Reloads, reloadT{At: len(c.Ops), N: inner, GeneratorPanics: pan})
+			extra := *rules[0]
+			extra.Strategy = userStrategy
+			extra.Id = "g" + strconv.Itoa(nReloads)
+			list := append([]*circuitbreaker.Rule{}, rules...)
+			pos := r.Intn(len(list) + 1)
+			list = append(list[:pos:pos], append([]*circuitbreaker.Rule{&extra}, list[pos:]...)...)
+			pending := inner
+			run := func() {
+				for ; pending > 0 && len(c.Ops) < nops; pending-- {
+					stepOnce()
+				}
+			}
+			genHook, genPanics = run, pan
+			circuitbreaker.LoadRulesOfResource(res, list) // the error of a failed load is expected
+			genHook, genPanics = nil, false
+			run() // whatever the generator did not get to
+			continue
+		}
+		stepOnce()
+	}
+	onOpenHook = nil
 	// the listener log of the case is cut here, before clean-up
 	for _, e := range lsnLog {
 		if e.Res == res {
@@ -1079,6 +1198,9 @@ func main() {
 	clk.Install()
 	chain := sentinel.BuildDefaultSlotChain()
 	chain.AddRuleCheckSlot(&laterSlot{})
+	if err := circuitbreaker.SetCircuitBreakerGenerator(userStrategy, userGenerator); err != nil {
+		panic(err)
+	}
 	circuitbreaker.RegisterStateChangeListeners(listener{})
 	h := &harness{clk: clk, chain: chain, root: rng.New(a.Seed)}
 
@@ -1118,6 +1240,16 @@ func main() {
 		}
 		if c.Reload != "" {
 			rep.Count("reload_prologue_"+c.Reload, 1)
+		}
+		if c.Listener != "" {
+			rep.Count("listener_"+c.Listener, 1)
+		}
+		for _, rl := range c.Reloads {
+			rep.Count("reload_inside_traffic", 1)
+			rep.Count("ops_inside_reload", rl.N)
+			if rl.GeneratorPanics {
+				rep.Count("reload_failed_by_generator_panic", 1)
+			}
 		}
 		if c.Directed {
 			rep.Count("cases_phase_directed", 1)
